@@ -858,6 +858,9 @@ class TorControlProtocol(LineOnlyReceiver):
             if cookiefile_match:
                 cookiefile = cookiefile_match.group(1)
                 cookiefile = unescape_quoted_string(cookiefile)
+                # Tor escapes the bytes of the path; give them back to the
+                # filesystem as bytes, not as code points
+                cookiefile = os.fsdecode(cookiefile.encode('latin-1'))
                 try:
                     self._read_cookie(cookiefile)
                     cookie_auth = True
